@@ -71,6 +71,11 @@ CONSTRUCTIONS = (
     ('eager-cache-dict', 'dict', 'pickle', 'eager'),
     ('eager-cache-of-raw-list', 'list', 'raw', 'eager'),
     ('new-of-raw-dataset', 'dict', 'raw', 'newds'),
+    # a cache over a stage that hands out its stored objects themselves (a
+    # memoising loader): the object of a first access IS the upstream object,
+    # the cache's snapshot is what keeps later accesses pristine
+    ('cache-of-unisolated-list', 'list', 'rawshared', 'cache'),
+    ('cache-of-unisolated-dict', 'dict', 'rawshared', 'cache'),
     ('diskcache-dict', 'dict', 'pickle', 'disk'),
     ('diskcache-of-raw-list', 'list', 'raw', 'disk'),
     # the same with tuple examples
@@ -110,7 +115,11 @@ class World:
             self.container = exs
         self.has_keys = backing == 'dict'
         core = ld.core
-        if mode == 'raw':
+        if mode == 'rawshared':
+            base = (core.DictDataset(self.container) if backing == 'dict'
+                    else core.ListDataset(self.container))
+            self.container_exempt = True
+        elif mode == 'raw':
             # a dataset that hands out its stored objects; the stage under test
             # (cache / new(ds)) must isolate its *own* store from what it
             # returns.  Upstream objects are re-created per read by a map so
@@ -273,6 +282,17 @@ class World:
         eq('slice', list(ds[1:]), p[1:])
         eq('copy-iter', list(ds.copy()), p)
         eq('len', len(ds), n)
+        if self.cons[3] != 'disk':
+            # a transported copy (pickle round trip, deepcopy) is one more path
+            # (a disk cache is left out: a second owner of the directory)
+            import pickle
+            try:
+                blob = pickle.dumps(ds)
+            except BaseException:
+                blob = None          # not picklable (function defined locally)
+            if blob is not None:
+                eq('pickled-copy', list(pickle.loads(blob)), p)
+            eq('deepcopy', list(copy.deepcopy(ds)), p)
         return out
 
 
